@@ -359,7 +359,7 @@ def _worker(hists):
                         # the model's inlined command on a connection without variables (the same values bound, if any); not possible
                         # when an inlined VALUE contains `$word` text (set through a bound parameter): the twin would scan it
                         r["twin"] = _outcome(lambda: _select(twin.cursor(), o["model"][1], params))
-                    if o["op"] == "b" and o["m_pct"] and o["m_final"][0] == "ok":
+                    if o["op"] == "b" and o["m_pct"] and o["m_final"][0] == "ok" and not re.search(r"(?<!\$)\$\w", o["m_final"][1]):
                         r["twin_final"] = _outcome(lambda: _select(twin.cursor(), o["m_final"][1]))
                     if o.get("err"):
                         # nothing may be executed: a DML carrying the same undefined reference leaves the table alone
@@ -423,7 +423,9 @@ def _judge(chk, h, res):
             chk.count("q:twin-skipped-dollar-in-value")
         elif o["op"] == "b" and o["m_pct"] and o["model"][0] == "ok":
             # a referenced value contains `%`: the model of the code formats it together with the command
-            if o["m_final"][0] == "ok":
+            if o["m_final"][0] == "ok" and "twin_final" not in r:
+                pred_ok = True      # the final text carries `$word` inside a bound value: the twin would scan it
+            elif o["m_final"][0] == "ok":
                 pred_ok = r["twin_final"] == real or (r["twin_final"][0] == "err" and real[0] == "err" and r["twin_final"][1:4] == real[1:4])
             else:
                 pred_ok = real[0] == "err" and real[1] in ("TypeError", "ValueError", "KeyError")
